@@ -292,8 +292,9 @@ def main(prop, tier, seed, jobs=None, replay=None):
         }
         if getattr(chk, 'EXHAUSTIVE', None):
             ev['coverage']['exhaustive'] = bool(chk.EXHAUSTIVE(tier)) if callable(chk.EXHAUSTIVE) else True
-        os.makedirs(os.path.join(VERIF, 'evidence'), exist_ok=True)
-        with open(os.path.join(VERIF, 'evidence', prop + '.json'), 'w') as f:
+        evdir = os.environ.get('VERIF_EVIDENCE_DIR') or os.path.join(VERIF, 'evidence')
+        os.makedirs(evdir, exist_ok=True)
+        with open(os.path.join(evdir, prop + '.json'), 'w') as f:
             json.dump(ev, f, indent=1, default=repr)
             f.write('\n')
 
